@@ -243,6 +243,44 @@ func init() {
 			e.storePtr(st, p, nv)
 			k(st, []Value{nv})
 		},
+		"sync/atomic.AddUint64": func(e *Engine, st *State, fr *Frame, site ssa.Instruction, callee *ssa.Function, args []Value, k cont) {
+			p := args[0].(VPtr)
+			old := e.loadPtr(st, p, nil).(Term)
+			nv := EMod(Add(old, args[1].(Term)), BigLit(pow2(64)))
+			e.storePtr(st, p, nv)
+			k(st, []Value{nv})
+		},
+		"sync/atomic.LoadUint64": func(e *Engine, st *State, fr *Frame, site ssa.Instruction, callee *ssa.Function, args []Value, k cont) {
+			k(st, []Value{e.loadPtr(st, args[0].(VPtr), nil)})
+		},
+		"sync/atomic.LoadUint32": func(e *Engine, st *State, fr *Frame, site ssa.Instruction, callee *ssa.Function, args []Value, k cont) {
+			k(st, []Value{e.loadPtr(st, args[0].(VPtr), nil)})
+		},
+		// flynn/noise handshake state: opaque; a successful WriteMessage appends to out (so the
+		// result is non-nil when out is), nothing of the caller's state is touched (assumed)
+		"(*github.com/flynn/noise.HandshakeState).WriteMessage": func(e *Engine, st *State, fr *Frame, site ssa.Instruction, callee *ssa.Function, args []Value, k cont) {
+			out := args[1].(VSlice)
+			res := e.freshResults(st, callee.Signature, "WriteMessage")
+			r := res[0].(VSlice)
+			errV := res[3].(VIface)
+			st.Assume(Implies(Eq(errV.Tag, TZero), And(Ge(r.Len, out.Len), Implies(Gt(out.Len, TZero), Neq(r.Arr, TZero)))))
+			k(st, res)
+		},
+		"(*github.com/flynn/noise.HandshakeState).ReadMessage": func(e *Engine, st *State, fr *Frame, site ssa.Instruction, callee *ssa.Function, args []Value, k cont) {
+			k(st, e.freshResults(st, callee.Signature, "ReadMessage"))
+		},
+		"(*github.com/flynn/noise.HandshakeState).ChannelBinding": func(e *Engine, st *State, fr *Frame, site ssa.Instruction, callee *ssa.Function, args []Value, k cont) {
+			k(st, e.freshResults(st, callee.Signature, "ChannelBinding"))
+		},
+		"(*github.com/flynn/noise.CipherState).Cipher": func(e *Engine, st *State, fr *Frame, site ssa.Instruction, callee *ssa.Function, args []Value, k cont) {
+			k(st, e.freshResults(st, callee.Signature, "Cipher"))
+		},
+		"(*golang.zx2c4.com/wireguard/replay.Filter).ValidateCounter": func(e *Engine, st *State, fr *Frame, site ssa.Instruction, callee *ssa.Function, args []Value, k cont) {
+			// accepts a counter at most once and only below the limit (assumed contract of the filter)
+			ok := e.sym.Fresh("validateCounter", SBool)
+			st.Assume(Implies(ok, Lt(args[1].(Term), args[2].(Term))))
+			k(st, []Value{ok})
+		},
 		"runtime.GOMAXPROCS": func(e *Engine, st *State, fr *Frame, site ssa.Instruction, callee *ssa.Function, args []Value, k cont) {
 			n := e.sym.Fresh("gomaxprocs", SInt)
 			st.Assume(And(Ge(n, TOne), Le(n, IntLit(1<<20))))
@@ -282,6 +320,28 @@ func init() {
 		externModels["go.brendoncarroll.net/stdctx/logctx."+n] = noop
 	}
 	invokeModels = map[string]invokeModel{
+		// noise.Cipher (AEAD): Encrypt appends len(plaintext)+16 bytes to out; Decrypt appends the
+		// plaintext or fails; neither touches the caller's state (assumed contract)
+		"Encrypt": func(e *Engine, st *State, fr *Frame, site ssa.Instruction, c *ssa.CallCommon, recv Value, args []Value, k cont) bool {
+			if !isNamed(c.Value.Type(), "github.com/flynn/noise", "Cipher") {
+				return false
+			}
+			out, pt := args[0].(VSlice), args[3].(VSlice)
+			res := e.freshResults(st, c.Signature(), "Encrypt")
+			r := res[0].(VSlice)
+			st.Assume(And(Eq(r.Len, Add(Add(out.Len, pt.Len), IntLit(16))), Neq(r.Arr, TZero)))
+			e.assumed["noise.Cipher.Encrypt: appends len(plaintext)+16 bytes to out, no other effect (assumed AEAD contract)"] = true
+			k(st, res)
+			return true
+		},
+		"Decrypt": func(e *Engine, st *State, fr *Frame, site ssa.Instruction, c *ssa.CallCommon, recv Value, args []Value, k cont) bool {
+			if !isNamed(c.Value.Type(), "github.com/flynn/noise", "Cipher") {
+				return false
+			}
+			e.assumed["noise.Cipher.Decrypt: returns the plaintext or an error, no other effect (assumed AEAD contract)"] = true
+			k(st, e.freshResults(st, c.Signature(), "Decrypt"))
+			return true
+		},
 		"Done": func(e *Engine, st *State, fr *Frame, site ssa.Instruction, c *ssa.CallCommon, recv Value, args []Value, k cont) bool {
 			if !isNamed(c.Value.Type(), "context", "Context") {
 				return false
